@@ -282,7 +282,8 @@ func c15Hook(t *fw.T) {
 	if r.Intn(30) == 0 {
 		maxLen = 16384
 	}
-	data := gen.Hostile(r, li.corpus, li.dict, maxLen)
+	_ = li
+	data := hostileInput(r, lang, maxLen)
 	if r.Intn(4) == 0 { // errors beyond the first line, after multi-byte characters
 		pre := gen.Pick(r, []string{"\n", "\r\n\n", " \n \r ", "/* é */\n", "\t \n"})
 		data = append([]byte(pre), data...)
